@@ -566,6 +566,11 @@ func (r *Request) success(result interface{}, m *metaObject) {
 
 // error sends an error response as a reply.
 func (r *Request) error(e *Error, m *metaObject) {
+	// A nil *Error (e.g. from panic((*Error)(nil))) would be encoded as
+	// {"error":null}, which is not a valid error response.
+	if e == nil {
+		e = ErrInternalError
+	}
 	data, err := json.Marshal(errorResponse{Error: e, Meta: m})
 	if err != nil {
 		data = responseInternalError
